@@ -9,21 +9,27 @@
 (*   root -> cell     LM x C x band range x tf pattern x role              *)
 (*   cell -> frame    an allocation computed by G04's model Alloc!Run for  *)
 (*                    packet length x header size x trim x dynalloc        *)
-(*                    pattern x skip policy x stereo parameters: pulses[], *)
-(*                    balance, codedBands, intensity, dual_stereo, and the *)
-(*                    tell at the first band (header + allocation symbols  *)
-(*                    + fine energy bits)                                  *)
-(*   frame -> btop    band by band.  Inside a band the first Depth oracle  *)
-(*   btop/bpre ->     entries are chosen from menus (bpre states: one per  *)
-(*     bpre/bdone     oracle prefix), the remaining ones by the frame's    *)
-(*   bdone -> btop    policy; bdone carries the band's summary, the next   *)
-(*                    btop only (tell, fold state): paths that end with    *)
-(*                    the same tell merge, so the frame is explored for    *)
-(*                    every combination of choices in all its bands.       *)
+(*                    pattern x skip policy x stereo parameters (a         *)
+(*                    deterministic 1/FrameMod sample of that grid):       *)
+(*                    pulses[], balance, codedBands, intensity,            *)
+(*                    dual_stereo, and the tell at the first band (header  *)
+(*                    + allocation symbols + fine energy bits)             *)
+(*   frame -> btop -> bdone -> btop ...   the POLICY PATH: band after band *)
+(*                    with every oracle entry taken from the frame's       *)
+(*                    policy (four policies: all-mid / all-side / balanced *)
+(*                    cheap / hashed)                                      *)
+(*   btop -> btop'    FORK: from every band top of the path the same band  *)
+(*     -> bpre* ->    is explored with its first Depth oracle entries      *)
+(*        bdone       chosen from the menus (theta values x costs at the   *)
+(*                    ends of their bounds, collapse masks), starting at   *)
+(*                    the path's tell, at tells around it and at tells     *)
+(*                    just below total_bits; bpre states are the oracle    *)
+(*                    prefixes.  Forked bands are not continued.           *)
+(* Every band summary (bdone) is checked against the theorems below.       *)
 (***************************************************************************)
 EXTENDS BandBits
 
-CONSTANTS LMs, Cs, Ranges, Lens, Hdrs, Trims, Pats, Skips, TfPats, Spreads, Pols, Roles, Depth, Jit, Pts, PlanMod,
+CONSTANTS LMs, Cs, Ranges, Lens, Hdrs, Trims, Pats, Skips, TfPats, Spreads, Pols, Roles, Depth, Jit, Pts, XPts, CmPts, PlanMod, TellDeltas, NearEnd, FrameMod,
           RemSlack, BMaxExtra
 
 VARIABLE node
@@ -73,8 +79,12 @@ MkFrame(LM, C, rg, tfp, role, len, hdr, trim, pat, nskip, spread, pol, ii, di) =
              cb |-> r.cb, inten |-> r.inten, dual |-> r.dual, short |-> short, spread |-> spread,
              tf |-> Force([i \in 1..NB |-> IF i > q.st /\ i <= q.en THEN TfOf(tfp, LM, i - 1) ELSE 0]),
              p |-> Force([i \in 1..NB |-> IF i > q.st /\ i <= q.en THEN r.p[i] ELSE 0]),
-             bal |-> r.bal, total |-> len * 64 - rsv, pol |-> pol, depth |-> Depth, jit |-> Jit, pts |-> Pts],
+             bal |-> r.bal, total |-> len * 64 - rsv, pol |-> pol, depth |-> 0, jit |-> Jit, pts |-> Pts, xpts |-> XPts, cmpts |-> CmPts],
       tell0 |-> tell0, len |-> len, rsv |-> rsv, allocBad |-> r.bad]
+
+RECURSIVE GridHashR(_, _, _)
+GridHashR(t, k, h) == IF k > Len(t) THEN h ELSE GridHashR(t, k + 1, (h * 131 + t[k] + 7) % 1000003)
+GridHash(t) == GridHashR(t, 1, 17)
 
 (* ------------------------------------------------------------------------ *)
 (* state graph                                                              *)
@@ -94,11 +104,23 @@ ToFrame ==
         ii \in (IF node.C = 1 THEN {0} ELSE {node.rg \div 100, ((node.rg \div 100) + (node.rg % 100)) \div 2, node.rg % 100}),
         di \in (IF node.C = 1 \/ node.role = 2 THEN {0} ELSE {0, 1}) :
        /\ len * 64 > hdr
+       \* a deterministic sample of the grid
+       /\ GridHash(<<node.LM, node.C, node.rg, node.tfp, node.role, len, hdr, trim, pat, nskip, spread, pol, ii, di>>) % FrameMod = 0
        /\ LET fr == MkFrame(node.LM, node.C, node.rg, node.tfp, node.role, len, hdr, trim, pat, nskip, spread, pol, ii, di) IN
           /\ (node.role = 2 => fr.f.dual = 0)
           /\ node' = [ph |-> "frame", f |-> fr.f, tell0 |-> fr.tell0, len |-> fr.len, rsv |-> fr.rsv, allocBad |-> fr.allocBad]
 
-Top(f, i, tell, g, t0) == [ph |-> "btop", f |-> f, i |-> i, tell |-> tell, g |-> g, orc |-> <<>>, t0 |-> t0]
+Top(f, i, tell, g, t0) == [ph |-> "btop", f |-> f, i |-> i, tell |-> tell, g |-> g, orc |-> <<>>, t0 |-> t0, probe |-> FALSE]
+
+\* from every band top of the policy path: the same band explored with the first Depth oracle entries chosen from the menus,
+\* started at the path's tell, at tells around it (other signals spent more or less before this band) and at tells just below
+\* total_bits (a starved frame).  The balance carried into a band does not depend on earlier tells, so each of these is the
+\* ledger of some history (the first band's tell is the one term that stays in the balance: t0); the folding state is the path's.
+Fork ==
+  /\ node.ph = "btop" /\ ~node.probe
+  /\ \E t \in {node.tell + d : d \in TellDeltas} \cup {node.tell - d : d \in TellDeltas} \cup {node.f.total - k : k \in NearEnd} :
+       /\ t >= 0
+       /\ node' = [node EXCEPT !.probe = TRUE, !.tell = t, !.f = [@ EXCEPT !.depth = Depth], !.t0 = IF node.i = node.f.st THEN t ELSE @]
 
 Start ==
   /\ node.ph = "frame"
@@ -135,32 +157,31 @@ TagsOf(f, i, r) ==
      \cup (IF r.b > 0 /\ r.b = r.rem0 + 1 THEN {"b clamped to remaining_bits+1"} ELSE {})
      \cup (IF f.st > 0 THEN {"hybrid start"} ELSE {})
 
+\* (bound with \E over singleton sets: TLC evaluates a LET of an action again at every use)
 Step ==
   /\ node.ph \in {"btop", "bpre"}
-  /\ LET f == node.f
-         i == node.i
-         r == BandRun(f, i, node.tell, node.g, node.orc)
-     IN IF r.s.short
-        THEN \E c \in MenuOf(f, r.s.need) : node' = [node EXCEPT !.ph = "bpre", !.orc = Append(@, c)]
-        ELSE LET m == BandRun(PlainEnc(f), i, node.tell, [InitFold(f) EXCEPT !.bal = node.g.bal, !.dual = node.g.dual],
-                              SelectSeq(r.s.out, LAMBDA e : e[1] = 1 \/ (e[1] = 7 /\ e[7] > 0)))
-             IN node' = [ph |-> "bdone", f |-> f, i |-> i, tell |-> node.tell, g2 |-> r.g, t0 |-> node.t0,
-                         sum |-> [lo |-> r.s.lo, bmax |-> r.s.bmax, bmin |-> r.s.bmin, lmmin |-> r.s.lmmin, dep |-> r.s.dep,
-                                  bad |-> r.s.bad, tell2 |-> r.s.tell, b |-> r.b, rem0 |-> r.rem0, rem2 |-> r.s.rem,
-                                  items |-> r.s.nsym + r.s.nleaf, used |-> r.s.pos,
-                                  mirror |-> /\ ~m.s.short /\ m.s.pos = r.s.pos
-                                             /\ MirrorSeq(m.s.out) = MirrorSeq(r.s.out)
-                                             /\ m.s.rem = r.s.rem /\ m.s.tell = r.s.tell /\ m.b = r.b /\ m.g.bal = r.g.bal
-                                             /\ m.g.upd = r.g.upd /\ m.g.dual = r.g.dual,
-                                  tags |-> TagsOf(f, i, r), masks |-> <<r.g.xm[i + 1], r.g.ym[i + 1]>>, B |-> r.B]]
+  /\ \E r \in {BandRun(node.f, node.i, node.tell, node.g, node.orc)} :
+       IF r.s.short
+       THEN \E c \in MenuOf(node.f, r.s.need) : node' = [node EXCEPT !.ph = "bpre", !.orc = Append(@, c)]
+       ELSE \E m \in {BandRun(PlainEnc(node.f), node.i, node.tell, [InitFold(node.f) EXCEPT !.bal = node.g.bal, !.dual = node.g.dual],
+                               SelectSeq(r.s.out, LAMBDA e : e[1] = 1 \/ (e[1] = 7 /\ e[7] > 0)))} :
+            node' = [ph |-> "bdone", f |-> node.f, i |-> node.i, tell |-> node.tell, g2 |-> r.g, t0 |-> node.t0, probe |-> node.probe,
+                     sum |-> [lo |-> r.s.lo, bmax |-> r.s.bmax, bmin |-> r.s.bmin, lmmin |-> r.s.lmmin, dep |-> r.s.dep,
+                              bad |-> r.s.bad, tell2 |-> r.s.tell, b |-> r.b, rem0 |-> r.rem0, rem2 |-> r.s.rem,
+                              items |-> r.s.nsym + r.s.nleaf, used |-> r.s.pos,
+                              mirror |-> /\ ~m.s.short /\ m.s.pos = r.s.pos
+                                         /\ MirrorSeq(m.s.out) = MirrorSeq(r.s.out)
+                                         /\ m.s.rem = r.s.rem /\ m.s.tell = r.s.tell /\ m.b = r.b /\ m.g.bal = r.g.bal
+                                         /\ m.g.upd = r.g.upd /\ m.g.dual = r.g.dual,
+                              tags |-> TagsOf(node.f, node.i, r), masks |-> <<r.g.xm[node.i + 1], r.g.ym[node.i + 1]>>, B |-> r.B]]
 
 NextBand ==
-  /\ node.ph = "bdone"
+  /\ node.ph = "bdone" /\ ~node.probe
   /\ node' = IF node.i = node.f.en - 1
              THEN [ph |-> "fdone", f |-> node.f, tell |-> node.sum.tell2, t0 |-> node.t0]
              ELSE Top(node.f, node.i + 1, node.sum.tell2, node.g2, node.t0)
 
-Next == ToCell \/ ToFrame \/ Start \/ Step \/ NextBand
+Next == ToCell \/ ToFrame \/ Start \/ Fork \/ Step \/ NextBand
 Spec == Init /\ [][Next]_node
 
 (* ------------------------------------------------------------------------ *)
@@ -185,6 +206,8 @@ Terminates == Done => node.sum.lmmin >= 0 - 1 /\ node.sum.dep <= node.f.LM + 1
 BudgetSafe ==
   Done => /\ node.sum.tell2 <= Max(node.f.total, node.tell) + Jit * node.sum.items
           /\ (node.tell > node.f.total - 1 => node.sum.tell2 = node.tell)
+\* NOT a theorem once the coder's estimate may be off by Jit per symbol (witness configuration: must be refuted)
+BudgetIdeal == Done => node.sum.tell2 <= Max(node.f.total, node.tell)
 FrameBudget == node.ph = "fdone" => node.tell <= Max(node.f.total, node.t0) + Jit * 64
 
 \* the tolerated overdraft of ctx.remaining_bits
@@ -213,11 +236,11 @@ Probe ==
     LET over == node.sum.tell2 - Max(node.f.total, node.tell)
         under == node.sum.lo - Min(node.sum.rem0, 0)
         extra == node.sum.bmax - node.sum.b
-    IN /\ (under < TLCGet(1) => TLCSet(1, under) /\ PrintT(<<"MINREM", under, node.f.LM, node.f.C, node.i, node.sum.b>>))
-       /\ (over > TLCGet(2) => TLCSet(2, over) /\ PrintT(<<"MAXOVER", over, node.f.LM, node.f.C, node.i>>))
+    IN /\ (under < 0 /\ under < TLCGet(1) => TLCSet(1, under) /\ PrintT(<<"MINREM", under, node.f.LM, node.f.C, node.i, node.sum.b>>))
+       /\ (over > 0 - 3 /\ over > TLCGet(2) => TLCSet(2, over) /\ PrintT(<<"MAXOVER", over, node.f.LM, node.f.C, node.i>>))
        /\ (~(node.sum.tags \subseteq TLCGet(3)) => PrintT(<<"TAGS", node.sum.tags \ TLCGet(3)>>) /\ TLCSet(3, TLCGet(3) \cup node.sum.tags))
-       /\ (extra > TLCGet(4) => TLCSet(4, extra) /\ PrintT(<<"MAXLEAFB", extra, node.sum.bmax, node.f.LM, node.f.C, node.i>>))
-       /\ (node.sum.used > TLCGet(5) => TLCSet(5, node.sum.used) /\ PrintT(<<"MAXITEMS", node.sum.used, node.f.LM, node.f.C, node.i>>))
+       /\ (extra > 0 /\ extra > TLCGet(4) => TLCSet(4, extra) /\ PrintT(<<"MAXLEAFB", extra, node.sum.bmax, node.f.LM, node.f.C, node.i>>))
+       /\ (node.sum.used > 8 /\ node.sum.used > TLCGet(5) => TLCSet(5, node.sum.used) /\ PrintT(<<"MAXITEMS", node.sum.used, node.f.LM, node.f.C, node.i>>))
 
 (* ------------------------------------------------------------------------ *)
 (* plan lines for the harness: one per frame                                *)
